@@ -71,6 +71,7 @@ class SimThread:
         self.done_q = WaitQ()
         self.prio = 0.0
         self.in_handler = False
+        self.nsig = 0             # python-level signal handlers run on this thread so far
         self.tls = {}
         self.prev_code = None
         self.ndp = 0
@@ -623,6 +624,7 @@ class Sim:
                 signum = p.pending_signals.pop(0)
                 h = p.sig_handlers.get(signum)
                 self.ev('sighandler', t.name, int(signum))
+                t.nsig += 1
                 if callable(h):
                     h(signum, None)
         finally:
